@@ -4,7 +4,8 @@ Spec: specs/Paths.tla - segments over the alphabet {name, "..", ".", "",
 name-with-inner-dots, backslash traversal, "..."}, Join/Clean as Go's
 filepath does them, the four peer-controlled fields (manifest.root, directory
 rel_path, file rel_path = FileBegin path, item.id) with their sinks and
-guards, both root-directory modes, resume on/off.  TLC enumerates every value
+guards, plus FileBegin.rel_path on its own (benign manifest, record with the key and size of a listed file
+and another path), both root-directory modes, resume on/off.  TLC enumerates every value
 up to MaxLen segments x absolute flag and checks Confined (guard rejects or
 the cleaned target stays below the output directory); with the pinned
 commit's guards (GuardAllFields = FALSE) TLC must find an escape.
@@ -31,18 +32,21 @@ def run(tier, seed):
     work = vlib.scratch("c07-")
     maxlen, variants, shards = (2, 1, 8) if tier == "quick" else (3, 2, 14)
     ep = os.path.join(work, "paths.ndjson")
-    r = vlib.run_tlc('Paths', dict(constants=dict(MaxLen=maxlen, GuardAllFields=True), invariants=['Confined'], action_constraint='Emit'),
+    r = vlib.run_tlc('Paths', dict(constants=dict(MaxLen=maxlen, GuardAllFields=True, BeginByKey=False), invariants=['Confined'], action_constraint='Emit'),
                      workers=8, edges_path=ep, timeout=900)
     if r['violated']:
         raise vlib.HarnessTrouble("Paths.tla: the modelled guards do not confine:\n" + r['violation_text'][:1500])
-    rn = vlib.run_tlc('Paths', dict(constants=dict(MaxLen=2, GuardAllFields=False), invariants=['Confined']), workers=4, want_edges=False, expect_violation=True)
+    rn = vlib.run_tlc('Paths', dict(constants=dict(MaxLen=2, GuardAllFields=False, BeginByKey=False), invariants=['Confined']), workers=4, want_edges=False, expect_violation=True)
     if not rn['violated']:
         raise vlib.HarnessTrouble("negative control (only FileBegin validated) not refuted")
+    rk = vlib.run_tlc('Paths', dict(constants=dict(MaxLen=2, GuardAllFields=True, BeginByKey=True), invariants=['Confined']), workers=4, want_edges=False, expect_violation=True)
+    if not rk['violated']:
+        raise vlib.HarnessTrouble("negative control (FileBegin matched to its item by key, path from the wire) not refuted")
     res = vlib.run_vh_sharded(['paths-jail', '-edges', ep, '-variants', str(variants)], shards, timeout=2400)
     if tier == "quick":
         # plus every 6th case of the 3-segment space
         ep3 = os.path.join(work, "paths3.ndjson")
-        r3 = vlib.run_tlc('Paths', dict(constants=dict(MaxLen=3, GuardAllFields=True), invariants=['Confined'], action_constraint='Emit'),
+        r3 = vlib.run_tlc('Paths', dict(constants=dict(MaxLen=3, GuardAllFields=True, BeginByKey=False), invariants=['Confined'], action_constraint='Emit'),
                           workers=8, edges_path=ep3, timeout=900)
         res3 = vlib.run_vh_sharded(['paths-jail', '-edges', ep3, '-sample', '6'], shards, timeout=2400)
         res = vlib.merge_results([res, res3])
@@ -61,7 +65,7 @@ def run(tier, seed):
                       rule="TLC enumerates field x segment sequence (<= %d segments over 7 classes) x absolute x root-dir mode x resume; each reached case is one hostile transfer; non-trivial = the value is rejected by the guard or would escape without it" % maxlen,
                       samples=res['samples'][:8], outcomes=res['extra'].get('outcomes'), exhaustive=True,
                       offer_root_names_against_the_binary=dict(runs=pb['behaviours'], outcomes=pb['extra'].get('outcomes')),
-                      tlc=dict(cases=r['edges'], negative_control_refuted=rn['violated']), accept_reject_drift=res['drift'])
+                      tlc=dict(cases=r['edges'], negative_controls_refuted=dict(only_filebegin_validated=rn['violated'], filebegin_matched_by_key=rk['violated'])), accept_reject_drift=res['drift'])
     v.assumptions = ["Unix path semantics; symlinks already present inside the output directory are not considered",
                      "segment spellings: names, '..', '.', empty, 'a..b', 'c\\\\..\\\\d', '...' (thorough: two spellings each)"]
     return v.finish()
